@@ -16,6 +16,9 @@ PROP = "C06"
 REPEAT_KINDS = ["rep2_fact", "rep2_goal", "rep2_cfact", "rep2_fluent", "rep2_cfluent", "rep2_tfluent",
                 "rep3_fact", "rep3m_fact", "rep3_fluent"]
 CONST_KINDS = ["cforall_pre", "cforall_eff"]       # D30 (repaired): quantifiers over constants, in cases of their own
+# several quantifiers in ONE action: shapes of the generated actions (see quant_domain_text)
+QUANT_SHAPES = ["eff", "pre", "when", "npre", "neff"]
+VAR_PATTERNS = {2: [("?x", "?x"), ("?x", "?y")], 3: [("?x", "?x", "?x"), ("?x", "?y", "?x"), ("?y", "?x", "?x")]}
 SITE_KINDS = ["fact", "goal", "fact2", "fluent", "fluent2", "cfact", "cfluent", "tfluent", "tfact",
               "forall_pre", "forall_eff", "joint_eff"]
 
@@ -179,7 +182,79 @@ def repeat_domain_text(groups, trailing, names):
                                                       " ".join(preds), " ".join(funcs)))
 
 
+def quant_action_text(act):
+    """one action with several quantifiers; the j-th quantifier has the variable vars[j], the type types[j], reads (m<j> .)
+    and (as an effect) writes (hit<j> .)"""
+    vs, ts, name, shape = act["vars"], act["types"], act["name"], act["shape"]
+    n = len(ts)
+    if shape == "eff":
+        pre = "(and )"
+        eff = "(and %s)" % " ".join("(forall (%s - %s) (when (m%d %s) (hit%d %s)))" % (vs[j], ts[j], j + 1, vs[j], j + 1, vs[j])
+                                    for j in range(n))
+    elif shape == "pre":
+        pre = "(and %s)" % " ".join("(forall (%s - %s) (and (m%d %s)))" % (vs[j], ts[j], j + 1, vs[j]) for j in range(n))
+        eff = "(and (fin kobject))"
+    elif shape == "when":
+        pre = "(and )"
+        eff = "(and (when (and %s) (fin kobject)))" % " ".join(
+            "(forall (%s - %s) (and (m%d %s)))" % (vs[j], ts[j], j + 1, vs[j]) for j in range(n))
+    elif shape == "npre":            # the inner quantifier re-binds (or not) the outer one's variable
+        pre = "(and (forall (%s - %s) (and (m1 %s) (forall (%s - %s) (and (m2 %s))))))" % (vs[0], ts[0], vs[0], vs[1], ts[1], vs[1])
+        eff = "(and (fin kobject))"
+    elif shape == "neff":            # a quantified condition inside the antecedent of a quantified effect
+        pre = "(and )"
+        eff = "(and (forall (%s - %s) (when (and (m1 %s) (forall (%s - %s) (and (m2 %s)))) (hit1 %s))))" % (
+            vs[0], ts[0], vs[0], vs[1], ts[1], vs[1], vs[0])
+    else:
+        raise ValueError(shape)
+    return "(:action %s :parameters () :precondition %s :effect %s)" % (name, pre, eff)
+
+
+def quant_domain_text(groups, trailing, names, acts):
+    consts = " ".join("k%s - %s" % (t, t) for t in names)
+    preds = " ".join("(m%d ?x - object) (hit%d ?x - object)" % (k, k) for k in (1, 2, 3)) + " (fin ?x - object)"
+    return ("(define (domain c06) (:requirements :typing :universal-preconditions :conditional-effects)\n"
+            " (:types %s)\n (:constants %s)\n (:predicates %s)\n %s)" % (
+                " ".join(types_tokens(groups, trailing)), consts, preds, "\n ".join(quant_action_text(a) for a in acts)))
+
+
+def quant_actions(rng, names, per_shape):
+    """actions whose quantifiers REUSE a variable name with different types, with the same type, and (control) use
+    distinct names; type tuples drawn from all tuples over the section's names (all of them when they are few)"""
+    acts = []
+    for shape in QUANT_SHAPES:
+        arities = [2, 3] if shape in ("eff", "pre", "when") else [2]
+        for n in arities:
+            tuples = list(itertools.product(names, repeat=n))
+            budget = per_shape if n == 2 else max(2, per_shape // 3)
+            if shape != "eff":                       # one run per (quantifier, entity): fewer of them
+                budget = max(2, budget // 2)
+            if len(tuples) > budget:
+                same = [t for t in tuples if len(set(t)) == 1]
+                picked = rng.sample(tuples, budget - 1) + [rng.choice(same)]
+            else:
+                picked = tuples
+            for ts in picked:
+                pats = VAR_PATTERNS[n]
+                # the reused-name pattern always; the others now and then
+                for vs in [pats[0]] + [q for q in pats[1:] if rng.random() < 0.25]:
+                    acts.append({"name": "a%d" % len(acts), "shape": shape, "types": list(ts), "vars": list(vs)})
+    return acts
+
+
 # ------------------------------------------------------------------------------------------------ cases
+def mk_quant_case(groups, trailing, rng, per_shape, hashseed):
+    groups = [(list(cs), p) for cs, p in groups]
+    trailing = list(trailing)
+    names = all_names(groups, trailing)
+    objs = [["o" + t, t] for t in names] + [["zz", "object"]]
+    rng.shuffle(objs)
+    acts = quant_actions(rng, names, per_shape)
+    return {"groups": groups, "trailing": trailing, "names": names, "kind": "forest-quantifiers", "sites": False,
+            "quant": True, "witness_of": None, "objects": objs, "ents": objs + [["k" + t, t] for t in names],
+            "acts": acts, "hashseed": hashseed, "domain_text": quant_domain_text(groups, trailing, names, acts)}
+
+
 def mk_case(groups, trailing, kind, sites=False, rng=None, witness_of=None, names=None, kinds=None):
     groups = [(list(cs), p) for cs, p in groups]
     trailing = list(trailing)
@@ -204,6 +279,9 @@ def mk_case(groups, trailing, kind, sites=False, rng=None, witness_of=None, name
 def job_of(c):
     if c.get("path"):
         return {"op": "c06.table_file", "path": c["path"], "names": c["names"]}
+    if c.get("quant"):
+        return {"op": "c06.quant", "domain_text": c["domain_text"], "names": c["names"], "objects": c["objects"],
+                "ents": c["ents"], "acts": c["acts"]}
     if c["sites"]:
         return {"op": "c06.sites", "domain_text": c["domain_text"], "names": c["names"], "objects": c["objects"],
                 "kinds": c["kinds"]}
@@ -225,12 +303,21 @@ def case_lit(c, res):
         sites = "(Some {| s_text := %s; s_objs := %s; s_obs := %s |})" % (cstr(c["domain_text"]), objs, obs)
     else:
         sites = "None"
-    if sites == "None" and c["names"] == all_names(c["groups"], c["trailing"]):
+    quant = "None"
+    if c.get("quant") and not raised:
+        acts = clist(["{| qa_name := %s; qa_shape := %s; qa_types := %s; qa_obs := %s |}" % (
+            cstr(a["name"]), cstr(a["shape"]), clist([cstr(t) for t in a["types"]]), cstr(res["quant"][a["name"]]))
+            for a in c["acts"]])
+        quant = "(Some {| q_text := %s; q_objs := %s; q_ents := %s; q_acts := %s |})" % (
+            cstr(c["domain_text"]), clist(["(%s, %s)" % (cstr(n), cstr(t)) for n, t in c["objects"]]),
+            clist(["(%s, %s)" % (cstr(n), cstr(t)) for n, t in c["ents"]]), acts)
+    if sites == "None" and quant == "None" and c["names"] == all_names(c["groups"], c["trailing"]):
         return "tc %s %s %s %s %s" % (cgroups(c["groups"]), clist([cstr(x) for x in c["trailing"]]), cobs(types),
                                       cstr(table), cstr(edges))
     return ("{| c_groups := %s; c_trailing := %s; c_names := %s; c_types := %s; c_table := %s; c_edges := %s; "
-            "c_sites := %s |}" % (cgroups(c["groups"]), clist([cstr(x) for x in c["trailing"]]),
-                                  clist([cstr(x) for x in c["names"]]), cobs(types), cstr(table), cstr(edges), sites))
+            "c_sites := %s; c_quant := %s |}" % (cgroups(c["groups"]), clist([cstr(x) for x in c["trailing"]]),
+                                                 clist([cstr(x) for x in c["names"]]), cobs(types), cstr(table),
+                                                 cstr(edges), sites, quant))
 
 
 def make_cyclic(groups, trailing, rng):
@@ -430,6 +517,27 @@ def build_cases(rng, tier, seed=0):
         lines, trailing = rng.choice(regroupings(par))
         gs, tr = apply_names(rng.sample(lines, len(lines)), trailing, name_map(len(par), rng))
         cases.append(mk_case(gs, tr, "forest-constants", sites=True, rng=rng, kinds=CONST_KINDS))
+    # 3c. SEVERAL quantifiers in one action (effects, preconditions, 'when' antecedents, nested) that reuse a variable name with
+    #     different / equal types; objects and constants of every type; under several PYTHONHASHSEEDs (the quantified effects
+    #     of an action live in a set).  Forests of depth >= 2 first.
+    deep = [par for par in fs if max(par) >= 1 and len(par) <= 5]
+    if tier == "quick":
+        chosen = rng.sample([p_ for p_ in deep if len(p_) <= 4], 4) + rng.sample(deep, 2)
+        per_shape = 8
+    else:
+        chosen = [p_ for p_ in fs if len(p_) <= 4] + rng.sample(deep, 30)
+        per_shape = 25
+    for qi, par in enumerate(chosen):
+        lines, trailing = rng.choice(regroupings(par))
+        gs, tr = apply_names(rng.sample(lines, len(lines)), trailing, name_map(len(par), rng))
+        cases.append(mk_quant_case(gs, tr, rng, per_shape, hashseed=seed + qi % (3 if tier == "quick" else 5)))
+    # ... and a larger random forest
+    for qi in range(1 if tier == "quick" else 8):
+        n = rng.randint(5, 7)
+        par = rand_forest(rng, n, rng.randint(2, 5))
+        lines, trailing = rand_arrangement(rng, par)
+        gs, tr = apply_names(lines, trailing, name_map(n, rng))
+        cases.append(mk_quant_case(gs, tr, rng, per_shape, hashseed=seed + 7 + qi))
     # 4. cyclic variants, two-parent variants
     base = [c for c in cases if c["kind"] == "forest"]
     for c in rng.sample(base, min(len(base), 150 if tier == "quick" else 1500)):
@@ -459,6 +567,36 @@ def build_cases(rng, tier, seed=0):
     return cases, stats, exhaustive
 
 
+def quant_diagnosis(c, res):
+    """for the replay file only (the verdict is Coq's): the first action of a several-quantifiers case whose observed rows
+    differ from 'touches e iff type(e) is a declared subtype of the quantified type', spelled out"""
+    if not c.get("quant") or "quant" not in res:
+        return None
+    par = dict(decl_pairs(c["groups"], c["trailing"]))
+
+    def sub(t, r):
+        seen = set()
+        while True:
+            if t == r or r == "object":
+                return True
+            if t == "object" or t in seen:
+                return False
+            seen.add(t)
+            t = par.get(t, "object")
+    for a in c["acts"]:
+        rows = res["quant"][a["name"]].split("|")
+        for j, row in enumerate(rows):
+            if a["shape"] in ("npre", "neff") and j == 1 and not any(sub(t, a["types"][0]) for _, t in c["ents"]):
+                continue
+            exp = "".join("1" if sub(t, a["types"][j]) else "0" for _, t in c["ents"])
+            if row != exp:
+                return {"action": quant_action_text(a), "quantifier": j + 1, "quantified_type": a["types"][j],
+                        "touched": [e for (e, _), b in zip(c["ents"], row) if b == "1"] if row != "E" else "raised",
+                        "declared_subtypes_are": [e for (e, _), b in zip(c["ents"], exp) if b == "1"],
+                        "types": " ".join(types_tokens(c["groups"], c["trailing"])), "hashseed": c["hashseed"]}
+    return None
+
+
 def nontrivial(c):
     return depth_of(c["groups"], c["trailing"]) >= 2
 
@@ -475,7 +613,21 @@ def run(args):
     hashseeds = [0] if args.tier == "quick" else [0]
     import time as _time
     _t0 = _time.time()
-    results = run_impl([job_of(c) for c in cases], hashseed=hashseeds[0] + args.seed)
+    # the quantifier cases carry their own PYTHONHASHSEED (several per run); everything else runs under one
+    results = [None] * len(cases)
+    by_seed = {}
+    for i, c in enumerate(cases):
+        by_seed.setdefault(c.get("hashseed", hashseeds[0] + args.seed) if c.get("quant") else None, []).append(i)
+    def _run_group(item):
+        hs, idx = item
+        if hs is None:
+            return run_impl([job_of(cases[i]) for i in idx], hashseed=hashseeds[0] + args.seed)
+        return run_impl([job_of(cases[i]) for i in idx], hashseed=hs, nproc=min(6, len(idx)))
+    import concurrent.futures as _cf
+    with _cf.ThreadPoolExecutor(max_workers=8) as _ex:
+        for (hs, idx), rs in zip(by_seed.items(), _ex.map(_run_group, list(by_seed.items()))):
+            for i, r in zip(idx, rs):
+                results[i] = r
     _t_impl = _time.time() - _t0
     # a shipped file that raises for reasons of its own (e.g. starcraft_domain.pddl) says nothing about its types section
     skipped_files = [c["fixture"] for c, r in zip(cases, results) if c.get("path") and "raised" in r]
@@ -483,7 +635,11 @@ def run(args):
     cases, results = [cases[i] for i in keep], [results[i] for i in keep]
     records = []
     for c, res in zip(cases, results):
-        records.append({"lit": case_lit(c, res), "input": {"case": c, "implementation": res},
+        inp = {"case": c, "implementation": res}
+        diag = quant_diagnosis(c, res)
+        if diag:
+            inp["first_quantifier_that_touches_other_objects_than_the_declared_subtypes"] = diag
+        records.append({"lit": case_lit(c, res), "input": inp,
                         "nontrivial": nontrivial(c), "witness_of": c.get("witness_of"), "klass": c.get("klass")})
     # about 12 shards or more (parallelism without paying the library load too often), at most 700 cases / 110 kB of literals per shard (parse time)
     verdicts, info = run_case_shards(PROP, "Corr.C06", [r["lit"] for r in records],
@@ -523,6 +679,23 @@ def run(args):
                 site_bits[k + ":refused"] += m.count("0")
                 site_bits[k + ":error"] += m.count("E")
     cov["site_probe_outcomes"] = dict(site_bits)
+    qstats = Counter()
+    for c, r in zip(cases, results):
+        if c.get("quant") and "quant" in r:
+            qstats["cases"] += 1
+            qstats["hashseed=%d" % c["hashseed"]] += 1
+            for a in c["acts"]:
+                reused = len(set(a["vars"])) < len(a["vars"])
+                diff = len(set(t for v, t in zip(a["vars"], a["types"]) if a["vars"].count(v) > 1)) > 1
+                qstats["actions:" + a["shape"]] += 1
+                qstats["actions with a reused variable name and different types" if reused and diff else
+                       "actions with a reused variable name and one type" if reused else
+                       "actions with distinct variable names"] += 1
+                o = r["quant"][a["name"]]
+                qstats["bits:touched"] += o.count("1")
+                qstats["bits:not touched"] += o.count("0")
+                qstats["actions that raised"] += 1 if o == "E" else 0
+    cov["several_quantifiers_in_one_action"] = dict(qstats)
     cov["table_bits"] = {"true": sum(r.get("table", "").count("1") for r in results),
                          "false": sum(r.get("table", "").count("0") for r in results)}
     cov["scope"] = dict(stats)
@@ -535,7 +708,9 @@ def run(args):
                    "all-pairs is_sub_type, create_type_hierarchy_graph edges; for site cases (%s) all (object type, required type) pairs at: "
                    "ProblemParser init fact / goal fact / 2nd argument / fluent / constant arguments, TrajectoryParser fluent and fact, "
                    "the SAME object / constant at 2 or 3 positions of a fact / goal / fluent for all (T, R1, R2[, R3]) of every forest with <= 3 types, "
-                   "forall precondition (applicability on crafted states), forall-when effect (successor) and the same effect under joint execution (multi_agent.common.apply_actions).  Plus cyclic variants (must be "
+                   "forall precondition (applicability on crafted states), forall-when effect (successor) and the same effect under joint execution (multi_agent.common.apply_actions); "
+                   "ONE action with 2-3 quantified effects / quantified preconditions / quantified 'when' antecedents / a quantifier nested in a quantifier or in the antecedent of a quantified effect, "
+                   "re-using a variable name with different types, with one type, or using distinct names, objects and constants of every type, under several PYTHONHASHSEEDs: which objects EACH quantifier touches.  Plus cyclic variants (must be "
                    "rejected), two-parent variants (model agreement only), random forests with 5-10 types, the (:types) sections of the "
                    "repository's fixture domains.  Non-trivial: some type has a declared parent other than object (depth >= 2); distinct by input hash."
                    % (stats.get("forests", "-"),
@@ -544,5 +719,6 @@ def run(args):
     cov["samples"] = [{k: c[k] for k in ("groups", "trailing", "kind")} for c in cases[:2] + cases[len(cases) // 2:len(cases) // 2 + 2] + cases[-1:]]
     cov["explanation"] = ("theorems C06_* (Props/C06.v) proved on the Coq model for all sections; model tied to /repo by the cases above, "
                           "spec oracle = Spec.Types.closure_b evaluated inside Coq")
-    rep.assumptions = ["type names are plain lower-case tokens", "PYTHONHASHSEED=%d" % (hashseeds[0] + args.seed)]
+    rep.assumptions = ["type names are plain lower-case tokens", "PYTHONHASHSEED=%d (the several-quantifiers cases: %s)" % (
+                           hashseeds[0] + args.seed, sorted(set(c["hashseed"] for c in cases if c.get("quant"))))]
     return rep.finish()
